@@ -279,6 +279,15 @@ func handleViolation(p *Prop, id, tier string, seed uint64, sc any, v *Violation
 		tr = &Trace{}
 		res, e = safeRun(p, sc, tr)
 	}
+	if (e != "" || res.Viol == nil || res.Viol.Class != v.Class) && e == "" {
+		// An observation that does not come back on re-running is a harness error — unless
+		// it is one of the recorded findings: those are acknowledged defects of sdns whose
+		// appearance may hang on a same-instant race (DESIGN.md §8.2), and reporting them as
+		// known needs no replay file.
+		if k := matchKnown(known, id, v); k != nil {
+			return &ViolOut{Seed: seed, Class: v.Class, Detail: v.Detail, What: k.What}
+		}
+	}
 	if e != "" || res.Viol == nil || res.Viol.Class != v.Class {
 		got := "none"
 		if res != nil && res.Viol != nil {
